@@ -39,6 +39,11 @@ func GenPlan(family string, seed uint64) *Plan {
 	}
 	bareConfig(p, seed)
 	sameIDConfig(p, seed)
+	if r := NewRng(seed, "dialect/"+family); p.Store.Dialect == "" && !p.Sched.Free && len(p.Insts) > 0 && r.Bool(0.1) {
+		// a store that words its refusals like internal/natsmock ("revision mismatch", "key not
+		// found"): the library's other classification branch (family c03 has its own share)
+		p.Store.Dialect = "mock"
+	}
 	return p
 }
 
@@ -1571,6 +1576,72 @@ func init() {
 		p.Tail = 0
 		statusCalls(r, p)
 		p.Sched = SchedCfg{YieldProb: 0.6, StallMax: Pick(r, []time.Duration{50 * ms, 200 * ms, 400 * ms}), StallSites: []string{"StopWithContext", "Stop"}}
+		return p
+	}
+}
+
+func init() {
+	// "sameid": the replacement that shares its predecessor's name. Instance 0 leads; at its k-th
+	// refresh something goes wrong for a moment (a transient error, an answer later than the
+	// per-refresh time-out, a lost acknowledgement, a short partition, a goroutine pause); a second
+	// election object with the SAME InstanceID - usually with a higher priority and takeover
+	// enabled, sometimes waiting for the record to lapse - is started around that moment and takes
+	// the record over; the first object comes back. Nothing but the fencing token and the writer's
+	// own bookkeeping tells the two apart: a record "with my id" is not "my record". Judged by the
+	// oracles that identify writers by election object and token (C01, C05, C10 safety).
+	families["sameid"] = func(r *Rng) *Plan {
+		p := &Plan{Judge: []string{"C01", "C05", "C10", "C13"}}
+		p.NoJudge = []string{"C02", "C03", "C04", "C06", "C07", "C08", "C09", "C11", "C12", "C17", "C18", "C19"}
+		baseTiming(r, p, []time.Duration{100 * ms, 200 * ms, 500 * ms, 1 * sec, 2 * sec, 3 * sec})
+		T := hbTimeout(p.H)
+		p.Insts = mkInsts(r, 2+r.Intn(2), 1)
+		p.Insts[1].ID = p.Insts[0].ID
+		p.Insts[0].Prio = Pick(r, []int{0, 1, 2})
+		p.Insts[0].Takeover = p.Insts[0].Prio > 0 && r.Bool(0.4)
+		if r.Bool(0.8) {
+			p.Insts[1].Prio, p.Insts[1].Takeover = p.Insts[0].Prio+1+r.Intn(3), true
+		}
+		for i := range p.Insts {
+			p.Insts[i].V = Pick(r, []time.Duration{0, 0, p.H, 2 * p.H})
+		}
+		lat := Pick(r, []time.Duration{2 * ms, p.H / 10, p.H / 4})
+		p.Store = healthyStore(r, lat)
+		if r.Bool(0.5) {
+			p.Store.Dialect = "mock"
+		}
+		p.Actions = append(p.Actions, Action{At: 0, Kind: AStart, Inst: 0})
+		for i := 2; i < len(p.Insts); i++ {
+			p.Actions = append(p.Actions, Action{At: r.Dur(0, 3*p.H), Kind: AStart, Inst: i})
+		}
+		k := 2 + r.Intn(5) // the refresh that goes wrong
+		switch r.Intn(6) {
+		case 0:
+			p.Faults = append(p.Faults, Fault{Kind: FError, Inst: 0, Op: "update", OpN: k, Err: Pick(r, []string{"timeout", "noresponders", "deadline"})})
+		case 1:
+			p.Faults = append(p.Faults, Fault{Kind: FSlow, Inst: 0, Op: "update", OpN: k, Arg: r.Dur(T, T+p.H)})
+		case 2:
+			p.Faults = append(p.Faults, Fault{Kind: FDropResp, Inst: 0, Op: "update", OpN: k})
+		case 3:
+			p.Faults = append(p.Faults, Fault{Kind: FDropReq, Inst: 0, Op: "update", OpN: k})
+		case 4:
+			from := time.Duration(k)*p.H + r.Dur(0, p.H)
+			p.Faults = append(p.Faults, Fault{Kind: FPartition, Inst: 0, From: from, To: from + r.Dur(p.H/2, p.TTL+p.H)})
+		default:
+			// two wrong refreshes in a row
+			p.Faults = append(p.Faults, Fault{Kind: FError, Inst: 0, Op: "update", OpN: k, Err: "timeout"},
+				Fault{Kind: Pick(r, []string{FSlow, FError}), Inst: 0, Op: "update", OpN: k + 1, Err: "timeout", Arg: r.Dur(T, T+p.H/2)})
+		}
+		// the namesake starts around the wrong refresh: at its invocation, its application, its
+		// answer, or up to two intervals later
+		st := Action{Kind: AStart, Inst: 1, OnInst: 1, OpN: k, OpKind: "update", Phase: Pick(r, []string{"invoke", "apply", "return"}), Delay: Pick(r, []time.Duration{0, 0, r.Dur(0, p.H), r.Dur(0, 2*p.H)})}
+		p.Actions = append(p.Actions, st)
+		p.Until = time.Duration(k+6)*p.H + 2*p.TTL + 2*T
+		if r.Bool(0.4) {
+			// later the namesake leaves again (gracefully or not) and the first object may return
+			p.Actions = append(p.Actions, Action{At: time.Duration(k+3)*p.H + r.Dur(0, p.TTL), Kind: Pick(r, []string{AStop, AStopCtx, ACrash}), Inst: 1, DeleteKey: r.Bool(0.5)})
+		}
+		p.Tail = 0
+		p.Sched = SchedCfg{YieldProb: Pick(r, []float64{0, 0.2, 0.5}), StallMax: Pick(r, []time.Duration{0, 0, p.H / 20, p.H})}
 		return p
 	}
 }
